@@ -437,12 +437,14 @@ var requests = []string{"/top", "/top?f=g", "/top?i=h", "/peek?f=g", "/flamegrap
 	// the same uncompilable expression under different options (the diagnostic names the option of THIS request), and
 	// requests whose page carries a message of their own ("... expression matched no samples")
 	"/", "/?f=g", "/?g=lines&h=f", "/?calltree=t", "/?n=2",
+	"/flamegraph?g=addresses", "/top?g=addresses&noinlines=t", "/peek?g=addresses&noinlines=t&f=g", "/top?g=addresses",
 	"/top?i=(", "/top?h=(", "/top?s=(", "/top?i=zznomatch", "/top?f=zznomatchb", "/top?h=zznomatchc", "/flamegraph?i=zznomatchd"}
 
 // directed histories next to the random ones: each runs sequentially and (several times) concurrently
 var directedWeb = [][]string{
 	{"/", "/?f=g", "/?g=lines&h=f", "/?calltree=t", "/?n=2", "/top"},
 	{"/top?f=(", "/top?i=(", "/top?h=(", "/top?s=(", "/top?f=("},
+	{"/flamegraph?g=addresses", "/top?g=addresses&noinlines=t", "/flamegraph?g=addresses", "/peek?g=addresses&noinlines=t&f=g", "/flamegraph?g=addresses", "/top?g=addresses"},
 	{"/flamegraph?si=s1", "/flamegraph", "/flamegraph?si=s1", "/flamegraph?g=lines", "/flamegraph?h=f", "/flamegraph?si=s1"},
 	{"/top?i=zznomatch", "/top?f=zznomatchb", "/top?h=zznomatchc", "/top", "/flamegraph?i=zznomatchd", "/top?f=g"},
 }
